@@ -3,9 +3,11 @@ from simcheck import sim_check
 
 
 def run(tier, seed, replay):
-    kws = [dict(auth="custom", events=True), dict(auth="custom", events=True, nclients=3), dict(auth="custom", policy="white", events=True), dict(auth="none", events=True)]
+    kws = [dict(auth="custom", events=True), dict(auth="proto", events=True, nclients=2), dict(auth="proto", events=True, nclients=3, weights=dict(session=0.6)),
+           dict(auth="custom", policy="white", events=True), dict(auth="none", events=True), dict(auth="proto", nclients=2, sessions=True)]
     return sim_check("C07", tier, seed, kws, n_quick=200, n_thorough=20000, oracle_props={"C07"},
                      rule_extra=", clients that are authorized late or never (custom authorization), server events of every kind emitted in arbitrary frames",
-                     extra_assumptions=["the protocol-hash handshake decision (authorized iff hashes equal, mismatch notification + disconnect request) is proved on the check_protocol model under C14 "
-                                        "and the hash itself is tied to the code there; sim scripts use AuthMethod::None and AuthMethod::Custom"],
+                     extra_assumptions=["all three authorization methods are exercised; under the default protocol check the moment of authorization is an oracle input of the model (taken from the observed run), "
+                                        "the oracle checks that exactly the clients whose hash matches are authorized and that a mismatching client gets the notification together with a disconnect request; "
+                                        "the decision function itself is proved under C14"],
                      model_name="RV.Repl.Sys + RV.Events.Remote")
